@@ -200,7 +200,8 @@ def check_snps_ref(facts, chk, rule, tier):
             samples.append(('s%d' % i, [rcs(g) if i % 2 else g]))
         n += 1
         try:
-            out = run_lo(facts, samples, k, 1, reference=('anc', anc))
+            # the reference is given soft-masked (lower case) around the second site: same sequence, same coordinates and alleles
+            out = run_lo(facts, samples, k, 1, reference=('anc', anc[:25] + anc[25:45].lower() + anc[45:]))
         except Panic as p:
             bad.append((samples, 'ska lo -r aborts: %s' % p.kind))
             continue
